@@ -259,6 +259,15 @@ Inv_C10_NoRetroactive(prev, o) ==
     /\ \A r \in DOMAIN prev.ps : r \in DOMAIN tb /\ tb[r] = prev.ps[r]
     /\ \A r \in (DOMAIN tb) \ (DOMAIN prev.ps) : r > prev.lcr
 
+\* the set of round r is fixed before the node assigns any event to round r: a
+\* set learned for a round the node had already reached would mean that some
+\* events of that round were divided (witness or not, quorums) under the old set
+\* (the design-level model BabbleDyn.tla shows the divergence this leads to when
+\* the activation delay is shorter than the time fame takes to be decided)
+Inv_C10_SetKnownBeforeRoundStarts(prev, o) ==
+    LET tb == PSTable(o.ps) IN
+    \A r \in (DOMAIN tb) \ (DOMAIN prev.ps) : r > prev.lr
+
 Inv_C10_SameAcrossNodes(n, o, lst, lost) ==
     LET tb == PSTable(o.ps) IN
     \A m \in (DOMAIN lst) \ (lost \cup {n}) :
@@ -509,7 +518,7 @@ TraceReset ==
            /\ psto' = [ n \in ns |-> << >> ]
            /\ rrv' = [ n \in ns |-> << >> ]
            /\ pools' = [ n \in ns |-> << >> ]
-           /\ last' = [ n \in ns |-> [ lcr |-> -1, ps |-> (0 :> gen), anchor |-> -1 ] ]
+           /\ last' = [ n \in ns |-> [ lcr |-> -1, ps |-> (0 :> gen), anchor |-> -1, lr |-> -1 ] ]
            /\ cev' = [ n \in ns |-> {} ]
            /\ base' = [ n \in ns |-> [ idx |-> -1, rr |-> -1, ps |-> (0 :> gen) ] ]
            /\ ctx' = [ n \in ns |-> << >> ]
@@ -602,6 +611,7 @@ SyncOutcome(n, x, o) ==
              \cup Checks("C09", "Inv_C09_SignsOnlyDelivered", ~hasStore \/ lostNow \/ Inv_C09_SignsOnlyDelivered(nd.h.me, dlv1[n], o, base[n].idx))
              \cup Checks("C10", "Inv_C10_HistoryIsReplay", lostNow \/ Inv_C10_HistoryIsReplay(base[n].ps, dlv1[n], o))
              \cup Checks("C10", "Inv_C10_NoRetroactive", Inv_C10_NoRetroactive(last[n], o))
+             \cup Checks("C10", "Inv_C10_SetKnownBeforeRoundStarts", lostNow \/ Inv_C10_SetKnownBeforeRoundStarts(last[n], o))
              \cup Checks("C10", "Inv_C10_SameAcrossNodes", lostNow \/ Inv_C10_SameAcrossNodes(n, o, last, lost1))
              \cup Checks("C10", "Inv_C10_BlockPeers", Inv_C10_BlockPeers(o))
              \cup Checks("C10", "Inv_C10_MembersOnly", lostNow \/ Inv_C10_MembersOnly(D, o))
@@ -626,7 +636,7 @@ SyncOutcome(n, x, o) ==
              \cup Checks("-", "Conf_SelfEvent", r.selfok /\ r.wantsOK)
              \cup Checks("-", "Conf_FameUnambiguous", ~h1.ambig)
     IN  [ nodes |-> nodes1, dlv |-> dlv1, sto |-> sto1, psto |-> psto1, rrv |-> [ rrv EXCEPT ![n] = rv1 ],
-          last |-> [ last EXCEPT ![n] = [ lcr |-> o.lcr, ps |-> PSTable(o.ps), anchor |-> o.anchor ] ],
+          last |-> [ last EXCEPT ![n] = [ lcr |-> o.lcr, ps |-> PSTable(o.ps), anchor |-> o.anchor, lr |-> o.lastRound ] ],
           cev |-> [ cev EXCEPT ![n] = @ \cup UNION { SeqToSet(o.blocks[k].evs) : k \in 1..Len(o.blocks) } ],
           ctx |-> [ ctx EXCEPT ![n] = BagAdd(@, NewTxs(o)) ],
           evals |-> IF lostNow THEN evals ELSE valsNew @@ evals, fames |-> IF lostNow THEN fames ELSE fames @@ fameNew, lostSet |-> lost1, pools |-> [ pools EXCEPT ![n] = AsSeq(o.txpool) ],
@@ -823,7 +833,7 @@ TraceNodeUp ==
            /\ psto' = Ext(psto, n, << >>)
            /\ rrv' = Ext(rrv, n, << >>)
            /\ pools' = Ext(pools, n, << >>)
-           /\ last' = Ext(last, n, [ lcr |-> -1, ps |-> (0 :> gen), anchor |-> -1 ])
+           /\ last' = Ext(last, n, [ lcr |-> -1, ps |-> (0 :> gen), anchor |-> -1, lr |-> -1 ])
            /\ cev' = Ext(cev, n, {})
            /\ base' = Ext(base, n, [ idx |-> -1, rr |-> -1, ps |-> (0 :> gen) ])
            /\ ctx' = Ext(ctx, n, << >>)
@@ -938,7 +948,7 @@ FFOutcome(n, x, o) ==
                \* earlier round this node never learns: 0 stands for "at or below the anchor"
                rrv |-> [ rrv EXCEPT ![n] = Strict([ e \in frameEvs |-> IF e \in SeqToSet(fr.evs) THEN blk.rr ELSE 0 ]) ],
                base |-> [ base EXCEPT ![n] = [ idx |-> blk.idx, rr |-> blk.rr, ps |-> PSTable(o.ps) ] ],
-               last |-> [ last EXCEPT ![n] = [ lcr |-> o.lcr, ps |-> PSTable(o.ps), anchor |-> o.anchor ] ] ]
+               last |-> [ last EXCEPT ![n] = [ lcr |-> o.lcr, ps |-> PSTable(o.ps), anchor |-> o.anchor, lr |-> o.lastRound ] ] ]
 
 TraceFFOffer ==
     /\ Line.a = "FFOffer"
@@ -1131,7 +1141,7 @@ TraceBootstrap ==
           /\ psto' = [ psto EXCEPT ![n] = << >> ]
           /\ rrv' = [ rrv EXCEPT ![n] = R.rr ]
           /\ pools' = [ pools EXCEPT ![n] = << >> ]
-          /\ last' = [ last EXCEPT ![n] = [ lcr |-> Line.o.lcr, ps |-> PSTable(Line.o.ps), anchor |-> Line.o.anchor ] ]
+          /\ last' = [ last EXCEPT ![n] = [ lcr |-> Line.o.lcr, ps |-> PSTable(Line.o.ps), anchor |-> Line.o.anchor, lr |-> Line.o.lastRound ] ]
           /\ cev' = [ cev EXCEPT ![n] = R.cev ]
           /\ ctx' = [ ctx EXCEPT ![n] = R.ctx ]
           /\ viol' = AddCapped(viol, R.V)
